@@ -18,6 +18,8 @@ Streams
                               answer is the innermost def/class whose body contains it (header tokens:
                               that def/class or the one around it; decorators: the one around)
              oracle-chain     parent() chain (lambdas ignored) = ast ancestors def/class, then module
+             fixed-probe      exact answers on the inputs of the repaired findings (async def body columns,
+                              lambda directly in a class body): regression inputs, see FIXED_PROBES
              oracle-fullname  the program is saved in a scratch project and imported: for every
                               def/class reachable through classes only,
                               full_name == obj.__module__ + '.' + obj.__qualname__
@@ -42,10 +44,11 @@ MANIFEST = dict(
          'positions; jedi side = transcription of Script.get_context, TreeContextMixin.create_context/create_value, '
          'FunctionValue.from_context, BaseName.parent, BaseName.full_name and the get_qualified_names family; Python '
          'side = positional containment in def/class statements and __qualname__): get_context is the innermost '
-         'containing def/class for positions on code under two explicit hypotheses (no enclosing definition starts at '
-         'or right of the column; no lambda directly in a class body on the way), with the indentation '
-         'characterisation for all other positions; the parent() chain of a definition is exactly its enclosing '
-         'defs/classes then the module; full_name = module path ++ __qualname__ when all ancestors are classes and the '
+         'containing def/class for positions on code under one explicit hypothesis (the statement of no enclosing '
+         'definition - for async def the async keyword - starts at or right of the column), lambdas and comprehensions '
+         'in class bodies included; the parent() chain of a definition is, lambdas aside, exactly its enclosing '
+         'defs/classes then the module (exactly that when its first named context is not a lambda; excluded: assigned '
+         'names below a lambda in a def/class header); full_name = module path ++ __qualname__ when all ancestors are classes and the '
          'module name is not a key of BaseName._mapping, and never contains <locals>. Kernel-checked counter-witnesses '
          'for each hypothesis (replayed on the real code as known findings). Tie: exact-equality correspondence of '
          'get_context at every position, parent() chains and full_name with the model on generated programs and on '
@@ -198,9 +201,9 @@ def import_objects(root, rel, dotted, defs):
 
 # ---------------------------------------------------------------------------- shapes of known findings
 
-def lambda_in_class(table, leaf_idx):
-    """the token sits in a lambda whose context (comprehensions not counting unless the lambda is
-    in the comprehension's last clause) is a class body"""
+def lambda_in_header(table, leaf_idx):
+    """the name sits below a lambda (comprehensions in between allowed) whose parent_scope is a def/class
+    in whose header (default, annotation, base) the lambda stands = not ChainHyp"""
     scopes, leaves = table['scopes'], table['leaves']
     s = leaves[leaf_idx][4]
     seen = 0
@@ -208,10 +211,7 @@ def lambda_in_class(table, leaf_idx):
         seen += 1
         if scopes[s][0] == 3:
             t = scopes[s][1]
-            st = tuple(scopes[s][2])
-            while scopes[t][0] == 4 and tuple(scopes[t][4]) <= st:
-                t = scopes[t][1]
-            if scopes[t][0] == 2:
+            if scopes[t][0] in (1, 2) and tuple(scopes[s][2]) < tuple(scopes[t][3]):
                 return True
         s = scopes[s][1]
     return False
@@ -219,20 +219,13 @@ def lambda_in_class(table, leaf_idx):
 
 def context_shape(table, defs, pos, inner):
     """syntactic class of a failing position = which hypothesis of context_is_innermost_body_partial
-    it violates"""
-    leaves = table['leaves']
+    it violates (d['start'] is the start of the statement: the `async` keyword of an async def)"""
     if inner is not None:
         chain = defs[inner]['parents'] + [inner]
         for j in reversed(chain):
             d = defs[j]
-            if d['async'] and d['start'][1] < pos[1] <= d['start'][1] + 6:
-                return 'async-def-body-not-right-of-def-keyword'
             if pos[1] <= d['start'][1]:
                 return 'continuation-line-not-right-of-enclosing-def'
-    # the token at pos, and the token that ends exactly at pos (jedi works with that one)
-    for i, l in enumerate(leaves):
-        if (l[0], l[1]) <= pos <= (l[2], l[3]) and lambda_in_class(table, i):
-            return 'lambda-directly-in-class-body'
     return 'unclassified'
 
 
@@ -399,7 +392,7 @@ def analyse(item):
             want = [ast2scope[j] for j in reversed(parents)] + [0]
             got = [x[0] for x in dinfo['chain'] if x[2] != '<lambda>']
             if got != want:
-                sh = 'lambda-directly-in-class-body' if lambda_in_class(table, int(li)) else 'unclassified'
+                sh = 'lambda-in-definition-header' if lambda_in_header(table, int(li)) else 'unclassified'
                 out['fails'].append(('oracle-chain', 'parent() chain is not the lexically enclosing defs/classes then the module',
                                      {'source': src, 'line': lf[0], 'column': lf[1], 'layout': layout, 'shape': sh},
                                      [describe(table, s) for s in want],
@@ -546,8 +539,22 @@ def compare(ctx, cases, answers):
         ctx.count('hypothesis-coverage', (src, 'hyp'), nontrivial=nhyp > 0,
                   bucket='positions under ContextHyp: %d%%' % (100 * nhyp // max(n, 1) // 10 * 10))
         # chains and full names
+        lambdas = set(a['lambdas'])
+        for li, chain, chyp, nlhyp, spec in zip(a['defs'], a['chain'], a['chainhyp'], a['nolambdahyp'], a['chainspec']):
+            ctx.count('chain-hypothesis-coverage', (src, li), nontrivial=chyp,
+                      bucket='ChainHyp' if chyp else 'excluded: lambda in a def/class header')
+            if chyp and [s_ for s_ in chain if s_ not in lambdas] != spec:
+                ctx.tie_broken('theorem-vs-model:parent_chain_eq_enclosing_partial', short({'source': src, 'leaf': li}, 800))
+            if nlhyp and chain != spec:
+                ctx.tie_broken('theorem-vs-model:parent_chain_exact', short({'source': src, 'leaf': li}, 800))
+        names_raised = any(r[0] == 'get_names' for r in J['raised'])
         for li, chain, full, chyp in zip(a['defs'], a['chain'], a['full'], a['chainhyp']):
             d = J['defs'].get(str(li))
+            if d is None and names_raised:
+                # get_names itself raised on this file (real source files run into the sandbox's typeshed hole;
+                # counted in `raised`, totality is C01's business): no definition to compare
+                ctx.count('chain', (src, li), nontrivial=False, bucket='get_names raised')
+                continue
             if d is None:
                 # jedi does not list it (e.g. a name the generator marks as binding but jedi does not)
                 ctx.tie_broken('correspondence:get_names', short({'source': src, 'leaf': table['leaves'][li]}, 800))
@@ -638,6 +645,7 @@ def run(ctx):
                 pre.append({'prog': d['prog'], 'layout': d.get('layout', 'flat'), 'tag': 'witness'})
     items = pre + items
     outs = common.parallel_map('props.c18', 'analyse', items, jobs=14)
+    fixed_probes(ctx)
     t1 = time.time()
     reqs, cases = [], []
     for out in outs:
@@ -693,21 +701,100 @@ D = G.D
 B = lambda x, e=None: {'k': 'bind', 'x': x, 'e': e or {'e': 'num'}}
 E = lambda e: {'k': 'expr', 'e': e}
 LAM = lambda body, params=(): {'e': 'lambda', 'params': [[x, None] for x in params], 'body': body}
-# programs that exercise each excluded shape (kept alive so the KNOWN-FINDING lines stay honest)
+# programs behind the Lean witness tables: the excluded shape (continuation line; kept alive so the
+# KNOWN-FINDING line stays honest) and the shapes of the repaired findings, which the oracle now demands
+# at every position (regression inputs; more of them in corpus/C18/fixed-*.json and FIXED_PROBES)
 WITNESSES = [
     # control + mapped layout: class with method and nested class
     {'body': G.PRELUDE + [D('class', 'K', [D('function', 'f', [B('a')], params=[{'name': 'p'}]),
                                            D('class', 'L', [B('b')])])], 'trail': 0},
-    # lambda directly in a class body
+    # lambda directly in a class body (repaired: C18-lambda-directly-in-class-body)
     {'body': G.PRELUDE + [D('class', 'K', [B('a', LAM(N_('b'), ['c']))])], 'trail': 0},
-    # comprehension variable inside a lambda directly in a class body (parent chain skips K)
+    # comprehension variable inside a lambda directly in a class body (repaired: the parent chain visits K)
     {'body': G.PRELUDE + [D('class', 'K', [B('a', LAM({'e': 'comp', 'form': 'list', 'elt': N_('b'), 'var': 'b',
                                                        'iter': N_('it'), 'cond': None}))])], 'trail': 0},
-    # async def: body columns between `async` and `def`
+    # async def: body columns between `async` and `def` (repaired: C18-async-def-body-column)
     {'body': G.PRELUDE + [D('function', 'f', [B('a'), E(N_('a'))], is_async=True)], 'trail': 0},
+    # comprehension variable inside a lambda in the header of a method (Props.C18.header_lambda_chain_witness)
+    {'body': G.PRELUDE + [D('class', 'K', [D('function', 'f', [{'k': 'pass'}], oneline=True, params=[
+        {'name': 'q', 'default': LAM({'e': 'comp', 'form': 'list', 'elt': N_('b'), 'var': 'b', 'iter': N_('it'),
+                                      'cond': None})}])])], 'trail': 0},
     # continuation line left of the enclosing def
     {'body': G.PRELUDE + [D('function', 'f', [E({'e': 'brk', 'inner': N_('a'), 'col': 0, 'ccol': 4})])], 'trail': 0},
 ]
+
+
+# exact answers on the inputs of the repaired findings (C18-async-def-body-column,
+# C18-lambda-directly-in-class-body[-parent-chain]): (source, {line: names of get_context at columns
+# 0..len(line)}, {(line, column) of a definition: its parent() chain})
+_M = 'mod_a'
+FIXED_PROBES = [
+    ('async def f():\n    a = ()\n',
+     {1: [_M] * 7 + ['f'] * 8, 2: [_M] + ['f'] * 10},
+     {(2, 4): [('function', 'f'), ('module', _M)]}),
+    ('def dec(f): return f\nclass K:\n    @dec\n    async def f(self):\n        a = ()\n',
+     {3: [_M] + ['K'] * 8, 4: [_M] + ['K'] * 10 + ['f'] * 12, 5: [_M] + ['K'] * 4 + ['f'] * 10},
+     {(5, 8): [('function', 'f'), ('class', 'K'), ('module', _M)]}),
+    ('async def f():\n    async def g():\n        a = ()\n    b = ()\n',
+     {2: [_M] + ['f'] * 10 + ['g'] * 8, 3: [_M] + ['f'] * 4 + ['g'] * 10, 4: [_M] + ['f'] * 10},
+     {(3, 8): [('function', 'g'), ('function', 'f'), ('module', _M)]}),
+    ('class K:\n    a = lambda c: b\n',
+     {2: [_M] + ['K'] * 19},
+     {(2, 15): [('class', 'K'), ('module', _M)]}),
+    ('class K:\n    a = lambda: [b for b in it]\n',
+     {2: [_M] + ['K'] * 31},
+     {(2, 23): [('function', '<lambda>'), ('class', 'K'), ('module', _M)]}),
+    ('def g():\n    class K:\n        a = lambda: (lambda: [b for b in it])\n',
+     {3: [_M] + ['g'] * 4 + ['K'] * 41},
+     {(3, 36): [('function', '<lambda>'), ('function', '<lambda>'), ('class', 'K'), ('function', 'g'), ('module', _M)]}),
+]
+
+
+def fixed_probes(ctx):
+    import jedi
+    root = os.path.join(SCRATCH, 'probe-%d' % os.getpid())
+    shutil.rmtree(root, ignore_errors=True)
+    os.makedirs(root)
+    try:
+        for src, contexts, chains in FIXED_PROBES:
+            path = os.path.join(root, 'mod_a.py')
+            with open(path, 'w', encoding='utf-8') as f:
+                f.write(src)
+            lines = src.split('\n')
+            for line, want in sorted(contexts.items()):
+                assert len(want) == len(lines[line - 1]) + 1, (src, line)
+                for col, w in enumerate(want):
+                    script = jedi.Script(src, path=path, project=jedi.Project(root))
+                    try:
+                        got = script.get_context(line, col).name
+                    except Exception as e:
+                        got = 'raised %s' % type(e).__name__
+                    ctx.count('fixed-probe', (src, line, col), nontrivial=True, bucket='get_context')
+                    if got != w:
+                        ctx.fail('oracle-context', 'get_context is not the innermost def/class containing the position '
+                                 '(input of a repaired finding)',
+                                 {'source': src, 'line': line, 'column': col, 'layout': 'flat', 'shape': 'fixed-probe'},
+                                 expected=w, observed={'get_context': got}, how=HOW)
+            script = jedi.Script(src, path=path, project=jedi.Project(root))
+            names = {(n.line, n.column): n for n in script.get_names(all_scopes=True, definitions=True)}
+            for (line, col), want in sorted(chains.items()):
+                got = []
+                try:
+                    n = names[(line, col)].parent()
+                    while n is not None and len(got) < 50:
+                        got.append((n.type, n.name))
+                        n = n.parent()
+                except Exception as e:
+                    got.append('raised %s' % type(e).__name__)
+                ctx.count('fixed-probe', (src, line, col, 'chain'), nontrivial=True, bucket='parent-chain')
+                if got != want:
+                    ctx.fail('oracle-chain', 'parent() chain is not the lexically enclosing scopes then the module '
+                             '(input of a repaired finding)',
+                             {'source': src, 'line': line, 'column': col, 'layout': 'flat', 'shape': 'fixed-probe'},
+                             expected=[list(x) for x in want], observed={'chain': [list(x) if isinstance(x, tuple) else x for x in got]},
+                             how=HOW)
+    finally:
+        shutil.rmtree(root, ignore_errors=True)
 
 
 def replay(ctx, payload):
